@@ -32,9 +32,11 @@ type target struct {
 	key        string
 	done, busy bool
 	partial    bool
-	paramTypes []Type // receiver first
-	results    []Type
-	resType    Type
+	paramTypes []Type // receiver first; for a pointer-to-array parameter the array type
+	paramRef   []bool // parameter i is a pointer to an array
+	refOut     []int  // indices of the pointer parameters the body writes through (returned as extra results)
+	results    []Type // Go results
+	resType    Type   // type of the Gallina result: Go results followed by the final values of refOut
 	text       string
 }
 
@@ -44,8 +46,9 @@ type fnState struct {
 	partial  bool
 	panicked bool
 	fresh    int
-	results  []Type
-	resType  Type
+	results  []Type     // Go results
+	resType  Type       // Gallina result type (Go results ++ types of refOut)
+	refOut   []*varInfo // pointer-to-array parameters written by the body
 }
 
 type translator struct {
@@ -84,7 +87,7 @@ func init() {
 		is_nil ctl go_for go_len go_index go_in_range go_slice go_slice_ok go_set go_zeros go_range go_enum list_set
 		wrap_u wrap_i wrap_u8 wrap_u16 wrap_u32 wrap_u64 wrap_i8 wrap_i16 wrap_i32 wrap_i64
 		be_uint16 be_uint32 be_uint64 be_uint_from be_append_uint16 bytes_has_prefix
-		safemath_add safemath_sub safemath_mul bits_mul64 bits_div64 bits_div64_ok go_error`) {
+		safemath_add safemath_sub safemath_mul bits_mul64 bits_div64 bits_div64_ok bits_add64 go_copy_at be_put_uint be_bytes go_error`) {
 		reserved[w] = true
 	}
 }
@@ -224,12 +227,24 @@ func (tr *translator) translateTarget(tg *target) error {
 		fn.sc.push()
 		var params []string
 		tg.paramTypes = nil
+		tg.paramRef = nil
+		tg.refOut = nil
 		addParam := func(at ast.Node, name string, te ast.Expr) error {
+			isRef := false
+			if st, ok := te.(*ast.StarExpr); ok {
+				// *A with A an array type: the body sees an array variable; if it writes through the
+				// pointer the final value of the array is returned as an extra result (in/out parameter)
+				te, isRef = st.X, true
+			}
 			t, err := tr.resolveType(f, te)
 			if err != nil {
 				return err
 			}
+			if _, isArr := t.(TArray); isRef && !isArr {
+				return tr.errf(at, "pointer parameter to a non-array type %s", t)
+			}
 			tg.paramTypes = append(tg.paramTypes, t)
+			tg.paramRef = append(tg.paramRef, isRef)
 			if it, ok := t.(TIface); ok {
 				if name == "_" {
 					return nil
@@ -257,6 +272,16 @@ func (tr *translator) translateTarget(tg *target) error {
 			vi, err := tr.declare(at, name, t)
 			if err != nil {
 				return err
+			}
+			if isRef {
+				if name == "_" {
+					return tr.errf(at, "unnamed pointer parameter")
+				}
+				vi.byRef = true
+				if tr.mutatesRef(d.Body, name) {
+					fn.refOut = append(fn.refOut, vi)
+					tg.refOut = append(tg.refOut, len(tg.paramTypes)-1)
+				}
 			}
 			params = append(params, fmt.Sprintf("(%s : %s)", vi.coq, ct))
 			return nil
@@ -289,11 +314,15 @@ func (tr *translator) translateTarget(tg *target) error {
 				}
 			}
 		}
-		if d.Type.Results == nil || len(d.Type.Results.List) == 0 {
+		if (d.Type.Results == nil || len(d.Type.Results.List) == 0) && len(fn.refOut) == 0 {
 			return tr.errf(d, "function without results")
 		}
 		fn.results = nil
-		for _, r := range d.Type.Results.List {
+		var resList []*ast.Field
+		if d.Type.Results != nil {
+			resList = d.Type.Results.List
+		}
+		for _, r := range resList {
 			if len(r.Names) != 0 {
 				return tr.errf(r, "named results")
 			}
@@ -303,10 +332,12 @@ func (tr *translator) translateTarget(tg *target) error {
 			}
 			fn.results = append(fn.results, t)
 		}
-		if len(fn.results) == 1 {
-			fn.resType = fn.results[0]
+		all := append([]Type{}, fn.results...)
+		all = append(all, typesOf(fn.refOut)...)
+		if len(all) == 1 {
+			fn.resType = all[0]
 		} else {
-			fn.resType = TTuple{Elems: fn.results}
+			fn.resType = TTuple{Elems: all}
 		}
 		rt, err := coqType(fn.resType)
 		if err != nil {
@@ -314,6 +345,11 @@ func (tr *translator) translateTarget(tg *target) error {
 		}
 		tg.results, tg.resType = fn.results, fn.resType
 		body, err := tr.block(d.Body.List, ctx{}, func() (string, error) {
+			if len(fn.results) == 0 {
+				// a function without Go results ends by falling off its body: its value is the final
+				// state of the arrays it writes through pointer parameters
+				return tr.ret(ctx{}, tuplePat(fn.refOut)), nil
+			}
 			return "", tr.errf(d, "control can reach the end of the function body (missing return)")
 		})
 		if err != nil {
